@@ -40,6 +40,20 @@ def make_cases(rng, tier, diff_here):
             cases.append(base("ExecuteMixModel", rules, hold=NAMES[0]))
             cases.append(base("ExecuteInverseMixModel", rules, hold=NAMES[rng.randrange(max(1, k - 1))]))
             cases.append(base("ExecuteInverseMixModel", rules, hold=NAMES[k - 1]))
+    # a failing rule that is the LAST of its concurrent stage to finish (held at its gate) and whose error is expensive to
+    # record (2 MiB text): the stage must not be considered over before that failure counts
+    def big(k, i):
+        rules = rules_with_failing(k, (i,))
+        rules[i]["kind"] = "bigfail"
+        return rules
+    for k in (3, 4):
+        for i in range(k - 1):
+            cases.append(base("ExecuteInverseMixModel", big(k, i), hold=NAMES[i]))
+        for i in range(1, k):
+            cases.append(base("ExecuteMixModel", big(k, i), hold=NAMES[i]))
+        for e in ["ExecuteNConcurrentMSort", "ExecuteNConcurrentMConcurrent"]:
+            for i in range(2):
+                cases.append(base(e, big(k, i), b=False, n=2, m=k - 2, hold=NAMES[i]))
     # the smallest rule sets: one rule (mix / inverse-mix have special cases for len <= 2), and n + m == len exactly
     for f in [(), (0,)]:
         rules = rules_with_failing(1, f)
